@@ -1,24 +1,49 @@
-"""C12 registry entry (loaded by bin/registry.py)."""
+"""C12 registry entry (loaded by bin/registry.py).
+
+Targets (all tape/PBT, all link the OpenSSL oracle in ossl_oracle.cc):
+  c12_digest         MD5, SHA-1, SHA-256, SHA-384, SHA-512, MD5SHA1, psHash* wrappers, psSha512Single
+  c12_hmac_kdf       HMAC-{MD5,SHA1,SHA256,SHA384} (all entry points), HKDF extract/expand/expand-label, PBKDF2 (pLen <= 64)
+  c12_cipher         AES block, AES-CBC 128/192/256, 3DES-CBC
+  c12_aead           AES-GCM 128/192/256 (all seal/open entry points, tag lengths 1..16), ChaCha20-Poly1305-IETF, negative tests
+  c12_aead_strict    same source with -DC12_STRICT: additionally (a) no plaintext left in the output buffer after a rejected open,
+                     (b) context reuse after a tag shorter than 16 bytes.  Kept separate because the pinned tree fails both
+                     (findings/gcm-plaintext-released.md, findings/gcm-short-tag-context-reuse.md) and every shard would stop at once.
+  c12_pbkdf2_longpw  PBKDF2 with passwords of 0..129 bytes (findings/pbkdf2-long-password.md: > 64 bytes overflows the HMAC pad).
+"""
 _O = ['props/C12/ossl_oracle.cc']
+_L = ['-lcrypto']
 PROP = dict(
     level='exploration',
-    level_text='x',
-    level_note='x',
-    technique='x',
-    rule='x',
-    assumptions=[],
+    level_text='Generated differential testing of every digest, HMAC, HKDF, PBKDF2, AES/3DES-CBC, AES-GCM and ChaCha20-Poly1305 entry point '
+               'against OpenSSL 3.0 EVP over message lengths dense around every block/padding boundary and random up to 64 KiB, every composition '
+               'of short messages into update calls (enumerated) and random splits otherwise, exact-size heap buffers at misalignments 0..15 under '
+               'ASan/UBSan, in-place operation, context reuse, all key sizes, AAD 0..300, all GCM tag lengths, and AEAD negative tests (every single-bit '
+               'modification of ciphertext/tag/nonce/AAD for short messages, truncation). Finds wrong outputs with high probability where they depend on '
+               'length/split/alignment/call pattern; proves nothing about unexplored inputs (e.g. messages >= 2^29 bytes, specific data-dependent carries).',
+    level_note='Trusted: OpenSSL 3.0 libcrypto as the reference, ASan/UBSan, the harness glue. Only the software AES/GHASH path is exercised: AES-NI/PCLMUL '
+               'is a compile-time switch (-maes => __AES__ => crypto/layer/layer.h) that the makefile does not enable on this host; a second library variant '
+               'is needed for aes_aesni.c. ChaCha20/Poly1305 run with the implementation picked at run time (best available); set '
+               'MATRIX_CHACHA20POLY1305_REF=1 in a target env to force the reference code. psHmacSha1Tls/psHmacSha2Tls are not compiled in this configuration.',
+    technique='property-based differential testing vs OpenSSL EVP (tape generators + shrinking), sanitizer oracle for buffer bounds',
+    rule='cases = (algorithm/entry point, key size, message length class, partition into calls, buffer offsets 0..15, in-place flag, context reuse, '
+         'AAD/tag length, modification kind) drawn from the tape; oracle = byte equality with OpenSSL (and OpenSSL\'s accept/reject verdict for modified AEAD '
+         'inputs); non-trivial = length within +-1 of a block/padding boundary, >= 2 non-empty calls, misaligned or in-place buffers, context reuse, long-key '
+         'path, short tag, or any negative AEAD test; distinct = distinct (algorithm, length class, split shape, offsets, mode flags)',
+    assumptions=['OpenSSL 3.0 libcrypto is correct for these algorithms',
+                 'functions are called inside the domain their in-tree callers / CRYPTO_ASSERTs define (CBC lengths are block multiples, 12-byte GCM nonce, '
+                 'HMAC Init keys <= block, exact in-situ overlap only, update lengths fit uint32_t)'],
     targets=[
-        dict(name='c12_pbkdf2_longpw', src=['props/C12/hmac_kdf.cc'] + _O, libs=['-lcrypto'], defs=['C12_ONLY_PBKDF2', 'C12_PBKDF2_MAXPW=129'],
-             quick=dict(cases=4000, secs=20), thorough=dict(cases=200000, secs=60)),
-        dict(name='c12_digest', src=['props/C12/digest.cc'] + _O, libs=['-lcrypto'],
-             quick=dict(cases=100000, secs=40), thorough=dict(cases=8000000, secs=200)),
-        dict(name='c12_hmac_kdf', src=['props/C12/hmac_kdf.cc'] + _O, libs=['-lcrypto'],
-             quick=dict(cases=100000, secs=40), thorough=dict(cases=8000000, secs=200)),
-        dict(name='c12_cipher', src=['props/C12/cipher.cc'] + _O, libs=['-lcrypto'],
-             quick=dict(cases=100000, secs=40), thorough=dict(cases=8000000, secs=200)),
-        dict(name='c12_aead', src=['props/C12/aead.cc'] + _O, libs=['-lcrypto'],
-             quick=dict(cases=100000, secs=40), thorough=dict(cases=8000000, secs=200)),
-        dict(name='c12_aead_strict', src=['props/C12/aead.cc'] + _O, libs=['-lcrypto'], defs=['C12_STRICT'],
-             quick=dict(cases=20000, secs=40), thorough=dict(cases=800000, secs=200)),
+        dict(name='c12_pbkdf2_longpw', src=['props/C12/hmac_kdf.cc'] + _O, libs=_L, defs=['C12_ONLY_PBKDF2', 'C12_PBKDF2_MAXPW=129'],
+             quick=dict(cases=5000, secs=20), thorough=dict(cases=300000, secs=90)),
+        dict(name='c12_digest', src=['props/C12/digest.cc'] + _O, libs=_L,
+             quick=dict(cases=130000, secs=25), thorough=dict(cases=12000000, secs=200)),
+        dict(name='c12_hmac_kdf', src=['props/C12/hmac_kdf.cc'] + _O, libs=_L,
+             quick=dict(cases=130000, secs=25), thorough=dict(cases=8000000, secs=200)),
+        dict(name='c12_cipher', src=['props/C12/cipher.cc'] + _O, libs=_L,
+             quick=dict(cases=90000, secs=20), thorough=dict(cases=6000000, secs=150)),
+        dict(name='c12_aead', src=['props/C12/aead.cc'] + _O, libs=_L,
+             quick=dict(cases=120000, secs=30), thorough=dict(cases=3000000, secs=200)),
+        dict(name='c12_aead_strict', src=['props/C12/aead.cc'] + _O, libs=_L, defs=['C12_STRICT'],
+             quick=dict(cases=25000, secs=20), thorough=dict(cases=400000, secs=60)),
     ],
 )
